@@ -24,6 +24,7 @@ OPER = {
     "m16bad": [{"t": "m", "w": 0, "aw": 16, "b": 1, "x": -1, "sc": 1, "d": 0, "hd": 0}, {"t": "m", "w": 0, "aw": 16, "b": 6, "x": 7, "sc": 1, "d": 0, "hd": 0},
                {"t": "m", "w": 0, "aw": 16, "b": 0, "x": -1, "sc": 1, "d": 2, "hd": 1}, {"t": "m", "w": 0, "aw": 16, "b": 4, "x": -1, "sc": 1, "d": 0, "hd": 0},
                {"t": "m", "w": 0, "aw": 16, "b": 2, "x": -1, "sc": 1, "d": 0, "hd": 0}],
+    "globundef": [{"t": "l", "nm": "_gund", "add": 0}],       # declared GLOBAL, never defined
     "fwdequ": [{"t": "l", "nm": "FWDQ", "add": 0}, {"t": "l", "nm": "FWDR", "add": 0}, {"t": "l", "nm": "FWDL", "add": 0}],
     "undef": [{"t": "l", "nm": "nowhere", "add": 0}],
     "far_ii": [{"t": "txt", "s": "8:27"}], "far_kw": [{"t": "txt", "s": "DWORD 2*8:0x0000001b"}], "far_es": [{"t": "txt", "s": '"":5'}],
@@ -58,6 +59,8 @@ def program(st, bits=16):
         tail = [{"k": "equ", "nm": "FWDQ", "e": {"o": "+", "a": {"o": "id", "nm": "nosuchsymbol"}, "b": {"o": "n", "v": 2}}},
                 {"k": "equ", "nm": "FWDR", "e": {"o": "id", "nm": "BX"}},
                 {"k": "equ", "nm": "FWDL", "e": {"o": "-", "a": {"o": "id", "nm": "after"}, "b": {"o": "id", "nm": "known"}}}]
+    if "_gund" in json.dumps(st):
+        pre = pre + [{"k": "global", "names": ["known", "_gund"]}]
     return pre + [{"k": "label", "nm": "known"}, {"k": "ins", "mn": "NOP", "ops": []}, st,
                   {"k": "label", "nm": "after"}, {"k": "data", "mn": "DW", "items": [{"t": "e", "e": {"o": "id", "nm": "after"}}]}] + tail
 
